@@ -197,7 +197,7 @@ def strata(tier):
                     yield make_case(G.rng_for("C17-strata", pos, pcls, via, j), tier, pos, pcls, via)
     # escaped literal mappings
     for j, lit in enumerate([{"path": ["a"]}, {"path": 3}, {"path.length": ["a"]}, {"path": ["a"], "b": 1}, {"Path": ["a"]},
-                             {"PATH.First": 1}, {"pAtH.length": ["a"]}]):
+                             {"PATH.First": 1}, {"pAtH.length": ["a"]}, {"path.map_keys": 1}, {"path.first.map_values": ["a_b"]}]):
         for fn in ("equal_to", "in_"):
             doc = {"a": lit, "b": 3, "c": {"path": ["zz"]}, "d": {k.lower(): v for k, v in lit.items()}}
             yield {"rule": {"path": PC.mkpath([{"p": "mol"}]), "cond": PC.L("value", fn, lit if fn == "equal_to" else [lit, 3]),
